@@ -22,3 +22,5 @@ def check(repo, rep, tier):
     g, gp = cm.g, cm.gp
     lc = rf.rule_raising_recognisers(em, rep, 'C19.B6a', g)
     rf.rule_cli_exit(em, rep, 'C19.B6', lc)
+    from .. import rules_extra as rx
+    rx.rule_stages_per_call(cm, em, rep, 'C19.B7')
